@@ -34,7 +34,7 @@ META = {
     'modelled': ['SQLite LIKE / ESCAPE / ASCII case folding (executed, not verified)',
                  'mysql / postgres / firebird / sybase / maxdb / mssql LIKE: standard semantics assumed, no server here'],
     'assumptions': ['TRANSLATED source (Extracted/PyLex.lean, Model/PyLex.lean, Model/LexX.lean): _quote_like_special, _LikeQuoted.__init__/__add__/__radd__/__sqlrepr__, '
-                    'LIKE.__init__/__sqlrepr__, STARTSWITH/ENDSWITH/CONTAINSSTRING, unquote_str, quote_str, StringLikeConverter and sqlrepr are translated from the AST on '
+                    'LIKE.__init__/__sqlrepr__, STARTSWITH/ENDSWITH/CONTAINSSTRING, the generic SQLExpression.startswith/endswith/contains and the column SQLObjectField.startswith/endswith/contains helpers (self._from_python is an interface call), unquote_str, quote_str, StringLikeConverter and sqlrepr are translated from the AST on '
                     'every run and proved equal to the hand model (C17_translated_*); assumed interface: str.upper is a per-character mapping with the facts UpperOK '
                     '(stream upper-table checks them on all code points), the exact-class converter registry (extracted registerConverter table), which classes have '
                     '__sqlrepr__, isinstance through the extracted bases/aliases; the CPython semantics of str.replace / % / slicing / join are built into the embedding '
